@@ -304,6 +304,18 @@ func propC18(c *vs.Case, nSubs, nRes, length int) error {
 				if len(sub.handlers) > 0 {
 					ops = append(ops, op{"remove-handlers " + key, func() error {
 						sub.ri.Informer().RemoveEventHandlers()
+						// once RemoveEventHandlers has returned, not a single further event may arrive -
+						// not even from the handler's own resync timer
+						before := make([]int, len(sub.handlers))
+						for i, h := range sub.handlers {
+							before[i] = h.size()
+						}
+						time.Sleep(25 * time.Millisecond)
+						for i, h := range sub.handlers {
+							if h.size() != before[i] {
+								return vs.Violf("C18/event-after-removal", "handler %s received %d event(s) after RemoveEventHandlers returned", h.id, h.size()-before[i])
+							}
+						}
 						for _, h := range sub.handlers {
 							h.removed = true
 						}
@@ -392,9 +404,9 @@ func propC18(c *vs.Case, nSubs, nRes, length int) error {
 }
 
 func TestVerifC18Exhaustive(t *testing.T) {
-	length := 3
+	length := 4
 	if vs.Tier() == "thorough" {
-		length = 4
+		length = 5
 	}
 	vs.RunExhaustive(t, "C18", 2_000_000, func(c *vs.Case) error { return propC18(c, 2, 1, length) })
 }
